@@ -19,8 +19,8 @@ CHECKS = {
             "Seeded search over DAGs x timestamp assignments x delivery orders; exhaustive order enumeration for small graphs through the Graph API driver.", "4 C03", TRUSTED),
     "C04": ("exploration", "deterministic simulation: tree delivery orders (deferred listeners), Graph-feed enumeration of every tree permutation for small DAGs, vs. recursive-expansion model in big integers",
             "Seeded search over tree DAGs x delivery orders; each of the seven dimensions judged independently.", "4 C04", TRUSTED),
-    "C05": ("exploration", "deterministic simulation with a simulated disk: declared object sizes and bombs served by simulated git peers, vs. min(true, capacity) in big integers; work counted at the simulated boundary",
-            "Seeded search over worlds whose true values straddle 2^32 and 2^64 (only the simulated peers can supply them); value, infinity sign, concern marker and JSON capacity checked; work measured as requests seen by the simulated cat-file. The all-operand-pairs arithmetic law is a pure function and is not decided by this technique.", "4 C05", TRUSTED),
+    "C05": ("exploration", "deterministic simulation with a simulated disk: declared object sizes and bombs served by simulated git peers, vs. min(true, capacity) in big integers; work counted at the simulated boundary; scaling pairs (W and 2W entries per tree) timed in processor time on the real binary",
+            "Seeded search over worlds whose true values straddle 2^32 and 2^64 (only the simulated peers can supply them); value, infinity sign, concern marker and JSON capacity checked; work measured as requests seen by the simulated cat-file, and as user+system time of the real binary on a bomb of 3 trees at W and 2W entries (every run starts with one such pair). The all-operand-pairs arithmetic law is a pure function and is not decided by this technique.", "4 C05", TRUSTED),
     "C06": ("exploration", "deterministic simulation: option sequences (exhaustive to length 2, seeded beyond) observed at the simulated rev-list stdin and --show-refs, vs. last-matching-rule fold",
             "Deterministic prefix plus seeded search; the selection is observed where it takes effect (the roots fed to the simulated rev-list) and in the census.", "4 C06", TRUSTED),
     "C07": ("exploration", "deterministic simulation: generated refgroup forests (real git config as peer) x reference sets, three output formats vs. recursive tally model",
@@ -41,8 +41,8 @@ CHECKS = {
             "Seeded search over configuration contents; observed through tallies and --include=@G acceptance.", "4 C15", TRUSTED),
     "C16": ("exploration", "fault injection at the parser API (corruption faults on valid generated objects) + truncated listing streams through the real reader loops",
             "Seeded corruption of valid bodies (every truncation point for small objects) under recover and a watchdog; losslessness against the model's own parser. Coverage-guided fuzzing over all byte strings is not this technique and is not claimed.", "4 C16", TRUSTED),
-    "C17": ("exploration", "real-process simulation under the race detector (engine B: -race at GOMAXPROCS 1/16, plain binary x12 at GOMAXPROCS 2-16 with proxy jitter and slowed config lookups) + in-process -race runs under different chunk/delay plans; repository digest before/after",
-            "Sampled schedules, not decided ones: the Go scheduler and the OS choose the interleaving inside git-sizer; the race detector is happens-before based, so it needs the accesses to occur, not a lucky interleaving.", "4 C17", TRUSTED + " Go race detector."),
+    "C17": ("exploration", "real-process simulation under the race detector (engine B: -race at GOMAXPROCS 1/16, plain binary x12 at GOMAXPROCS 2-16 with proxy jitter and slowed config lookups) + in-process -race runs under different chunk/delay plans and 8 goroutine schedules decided at yield points compiled into copies of git-sizer's sources; repository digest before/after",
+            "In the real binary schedules are sampled (the Go scheduler and the OS choose); in the in-process engine the plan decides who proceeds at every lock, channel operation and goroutine start (GOMAXPROCS=1, yields by channel hand-off), and stdout must be identical under all of them. The race detector is happens-before based, so it needs the accesses to occur, not a lucky interleaving.", "4 C17", TRUSTED + " Go race detector."),
     "C18": ("exploration", "deterministic simulation of the progress meter: baton scheduler over worker / ticker goroutines parked at hook H1 / fake clock, online invariants on every frame; whole-system runs with peers slowed on the fake clock",
             "Seeded search over schedules including the window 'tick received, lock not yet taken' for current and stale tickers; about 10^4 schedules per second.", "4 C18", TRUSTED + " Hook H1 (build tag verif) in meter/meter.go."),
     "C19": ("exploration", "deterministic simulation used as a name supplier: hostile bytes arrive from the simulated peers; strict JSON / table structure checks against a plain-name twin world",
